@@ -485,3 +485,179 @@ fn dns_via_dispatch() {
 fn c19_dns_via_dispatch() {
     dns_via_dispatch()
 }
+
+
+// ---- C11 at the dispatcher: the responder of a flow is fed the stream from its first byte ----
+// The HTTP / ONC-RPC responders are replaced by recorders that compare every byte they are
+// handed with the stream, in order.  Together with the parser-level cut lemmas
+// (c11_http_stream_cuts_*, c16_rpc_tcp_parse_cut*: the parsers keep all their state in the
+// control block) "the bytes handed to the responder concatenate to the stream" gives the
+// flow-level statement for two segments.
+pub static mut FEED_EXPECT: [u8; 48] = [0; 48];
+pub static mut FEED_POS: usize = 0;
+pub static mut FEED_OK: bool = true;
+fn feed(d: &[u8]) {
+    unsafe {
+        let mut i = 0;
+        while i < d.len() {
+            if FEED_POS + i >= 48 || FEED_EXPECT[FEED_POS + i] != d[i] {
+                FEED_OK = false;
+            }
+            i += 1;
+        }
+        FEED_POS += d.len();
+    }
+}
+pub fn rec_http(d: &[u8], _m: &Masscanned, _c: &ClientInfo, _t: Option<&mut TCPControlBlock>) -> Option<Vec<u8>> { feed(d); None }
+pub fn rec_rpc_tcp(d: &[u8], _m: &Masscanned, _c: &ClientInfo, _t: Option<&mut TCPControlBlock>) -> Option<Vec<u8>> { feed(d); None }
+
+/// stream s[..n] on a fresh flow, cut in two at every position in lo..hi
+fn feed_case(s: &[u8; 48], n: usize, lo: usize, hi: usize, want: usize) {
+    lazy_static::initialize(&PROTO_SMACK);
+    let masscanned = ms_plain([0, 0], MacAddr::new(0, 1, 2, 3, 4, 5));
+    let mut ci = ci_any(false, true);
+    let mut cut = lo;
+    while cut < hi {
+        unsafe {
+            FEED_EXPECT = *s;
+            FEED_POS = 0;
+            FEED_OK = true;
+        }
+        let mut tcb = TCPControlBlock { smack_state: BASE_STATE, proto_id: PROTO_NONE, proto_state: None };
+        let _ = repl(&s[..cut], &masscanned, &mut ci, Some(&mut tcb));
+        let _ = repl(&s[cut..n], &masscanned, &mut ci, Some(&mut tcb));
+        assert!(tcb.proto_id == want, "C10: TCP identification depends on how the leading bytes are split into segments");
+        assert!(unsafe { FEED_OK && FEED_POS == n }, "C11: cut inside the protocol signature: the flow's responder is not handed the stream from its first byte, so the request is parsed differently from the unsegmented stream");
+        std::mem::forget(tcb);
+        cut += 1;
+    }
+    kani::cover!(true, "all cuts examined");
+}
+fn http_stream() -> ([u8; 48], usize) {
+    let mut s = [0u8; 48];
+    let t = b"GET /t HTTP/1.v\r\n\r\n";
+    let mut i = 0;
+    while i < t.len() { s[i] = t[i]; i += 1; }
+    s[5] = kani::any();
+    s[14] = kani::any();
+    (s, 19)
+}
+fn rpc_stream() -> ([u8; 48], usize) {
+    let mut s = [0u8; 48];
+    s[0] = 0x80;
+    s[3] = 40;
+    let x: [u8; 4] = kani::any();
+    kani::assume(x[0] != 0);
+    s[4] = x[0]; s[5] = x[1]; s[6] = x[2]; s[7] = x[3];
+    s[15] = 2;
+    s[17] = 0x01; s[18] = 0x86; s[19] = 0xa0;
+    s[23] = kani::any();
+    (s, 44)
+}
+
+//# harness: c11_dispatch_feed_http_sig
+//# props: C11
+//# tier: quick
+//# encodes: proto::repl (dispatcher in TCP mode with a control block: identification state kept across segments, sticky protocol, which bytes the responder is handed)
+//# encodes: smack::Smack::search_next on the real PROTO tables
+//# bounds: stream "GET /t HTTP/1.v CRLF CRLF" (19 bytes, target byte and version digit arbitrary) on a fresh flow, cut in two at every position 1..4 (inside the 5-byte signature)
+//# stubs: http::repl and rpc::repl_tcp -> recorders comparing every byte they are handed with the stream; other responders -> tags; proto_init -> constructor over the natively dumped real tables
+//# out: three and more segments (by induction from the parser-level cut lemmas); what the responders do with the bytes (c11_http_stream_cuts_*, c16_rpc_tcp_parse_cut*)
+//# cover: all cuts examined
+#[kani::proof]
+#[kani::unwind(50)]
+#[kani::stub(crate::proto::proto_init, crate::proto::verif_proto_init_stub)]
+#[kani::stub(crate::proto::http::repl, rec_http)]
+#[kani::stub(crate::proto::stun::repl, tag_stun)]
+#[kani::stub(crate::proto::ssh::repl, tag_ssh)]
+#[kani::stub(crate::proto::ghost::repl, tag_ghost)]
+#[kani::stub(crate::proto::rpc::repl_tcp, rec_rpc_tcp)]
+#[kani::stub(crate::proto::rpc::repl_udp, tag_rpc_udp)]
+#[kani::stub(crate::proto::smb::repl_smb1, tag_smb1)]
+#[kani::stub(crate::proto::smb::repl_smb2, tag_smb2)]
+fn c11_dispatch_feed_http_sig() {
+    let (s, n) = http_stream();
+    feed_case(&s, n, 1, 5, PROTO_HTTP)
+}
+
+//# harness: c11_dispatch_feed_http_after
+//# props: C11
+//# tier: quick
+//# encodes: proto::repl (dispatcher in TCP mode with a control block: identification state kept across segments, sticky protocol, which bytes the responder is handed)
+//# encodes: smack::Smack::search_next on the real PROTO tables
+//# bounds: stream "GET /t HTTP/1.v CRLF CRLF" (19 bytes, target byte and version digit arbitrary) on a fresh flow, cut in two at every position 5..18 (after the signature)
+//# stubs: http::repl and rpc::repl_tcp -> recorders comparing every byte they are handed with the stream; other responders -> tags; proto_init -> constructor over the natively dumped real tables
+//# out: three and more segments (by induction from the parser-level cut lemmas); what the responders do with the bytes (c11_http_stream_cuts_*, c16_rpc_tcp_parse_cut*)
+//# cover: all cuts examined
+#[kani::proof]
+#[kani::unwind(50)]
+#[kani::stub(crate::proto::proto_init, crate::proto::verif_proto_init_stub)]
+#[kani::stub(crate::proto::http::repl, rec_http)]
+#[kani::stub(crate::proto::stun::repl, tag_stun)]
+#[kani::stub(crate::proto::ssh::repl, tag_ssh)]
+#[kani::stub(crate::proto::ghost::repl, tag_ghost)]
+#[kani::stub(crate::proto::rpc::repl_tcp, rec_rpc_tcp)]
+#[kani::stub(crate::proto::rpc::repl_udp, tag_rpc_udp)]
+#[kani::stub(crate::proto::smb::repl_smb1, tag_smb1)]
+#[kani::stub(crate::proto::smb::repl_smb2, tag_smb2)]
+fn c11_dispatch_feed_http_after() {
+    let (s, n) = http_stream();
+    feed_case(&s, n, 5, 19, PROTO_HTTP)
+}
+
+//# harness: c11_dispatch_feed_rpc_sig
+//# props: C11
+//# tier: thorough
+//# timeout: 1200
+//# encodes: proto::repl (dispatcher in TCP mode with a control block: identification state kept across segments, sticky protocol, which bytes the responder is handed)
+//# encodes: smack::Smack::search_next on the real PROTO tables
+//# bounds: 44-byte ONC-RPC call over TCP (record mark, XID arbitrary with non-zero first byte, program 100000, program version arbitrary, procedure 0) on a fresh flow, cut in two at positions 1, 4, 12, 27 (inside the 28-byte signature)
+//# stubs: http::repl and rpc::repl_tcp -> recorders comparing every byte they are handed with the stream; other responders -> tags; proto_init -> constructor over the natively dumped real tables
+//# out: three and more segments (by induction from the parser-level cut lemmas); what the responders do with the bytes (c11_http_stream_cuts_*, c16_rpc_tcp_parse_cut*)
+//# cover: all cuts examined
+#[kani::proof]
+#[kani::unwind(50)]
+#[kani::stub(crate::proto::proto_init, crate::proto::verif_proto_init_stub)]
+#[kani::stub(crate::proto::http::repl, rec_http)]
+#[kani::stub(crate::proto::stun::repl, tag_stun)]
+#[kani::stub(crate::proto::ssh::repl, tag_ssh)]
+#[kani::stub(crate::proto::ghost::repl, tag_ghost)]
+#[kani::stub(crate::proto::rpc::repl_tcp, rec_rpc_tcp)]
+#[kani::stub(crate::proto::rpc::repl_udp, tag_rpc_udp)]
+#[kani::stub(crate::proto::smb::repl_smb1, tag_smb1)]
+#[kani::stub(crate::proto::smb::repl_smb2, tag_smb2)]
+fn c11_dispatch_feed_rpc_sig() {
+    let (s, n) = rpc_stream();
+    feed_case(&s, n, 1, 2, PROTO_RPC_TCP);
+    feed_case(&s, n, 4, 5, PROTO_RPC_TCP);
+    feed_case(&s, n, 12, 13, PROTO_RPC_TCP);
+    feed_case(&s, n, 27, 28, PROTO_RPC_TCP)
+}
+
+//# harness: c11_dispatch_feed_rpc_after
+//# props: C11
+//# tier: thorough
+//# timeout: 1200
+//# encodes: proto::repl (dispatcher in TCP mode with a control block: identification state kept across segments, sticky protocol, which bytes the responder is handed)
+//# encodes: smack::Smack::search_next on the real PROTO tables
+//# bounds: 44-byte ONC-RPC call over TCP (as c11_dispatch_feed_rpc_sig) cut in two at positions 28, 29, 36, 43 (after the signature)
+//# stubs: http::repl and rpc::repl_tcp -> recorders comparing every byte they are handed with the stream; other responders -> tags; proto_init -> constructor over the natively dumped real tables
+//# out: three and more segments (by induction from the parser-level cut lemmas); what the responders do with the bytes (c11_http_stream_cuts_*, c16_rpc_tcp_parse_cut*)
+//# cover: all cuts examined
+#[kani::proof]
+#[kani::unwind(50)]
+#[kani::stub(crate::proto::proto_init, crate::proto::verif_proto_init_stub)]
+#[kani::stub(crate::proto::http::repl, rec_http)]
+#[kani::stub(crate::proto::stun::repl, tag_stun)]
+#[kani::stub(crate::proto::ssh::repl, tag_ssh)]
+#[kani::stub(crate::proto::ghost::repl, tag_ghost)]
+#[kani::stub(crate::proto::rpc::repl_tcp, rec_rpc_tcp)]
+#[kani::stub(crate::proto::rpc::repl_udp, tag_rpc_udp)]
+#[kani::stub(crate::proto::smb::repl_smb1, tag_smb1)]
+#[kani::stub(crate::proto::smb::repl_smb2, tag_smb2)]
+fn c11_dispatch_feed_rpc_after() {
+    let (s, n) = rpc_stream();
+    feed_case(&s, n, 28, 30, PROTO_RPC_TCP);
+    feed_case(&s, n, 36, 37, PROTO_RPC_TCP);
+    feed_case(&s, n, 43, 44, PROTO_RPC_TCP)
+}
